@@ -19,6 +19,7 @@ import CBV.Lemmas.C11Oval
 import CBV.Lemmas.C11Rev
 import CBV.Lemmas.C11RevDisk
 import CBV.Lemmas.C11RevWrap
+import CBV.Lemmas.C11RevOval
 import Mathlib.Analysis.Real.Sqrt
 import Mathlib.Tactic.NormNum
 import Mathlib.Tactic.Ring
@@ -960,6 +961,36 @@ example : ∀ H ∈ revolveOf (sketchQuads "WrappedDisk")
   T_C11_revolved_wrapped_rightHanded _ _ _ 1 3 1 1 _ _ _ _ _ _ (by norm_num [P3.nsq, P3.dot])
     (by norm_num [P3.nsq, P3.dot]) (by norm_num [P3.dot]) (by norm_num) (by norm_num) (by norm_num) (by norm_num)
     (by norm_num) (by norm_num) (by norm_num) (by norm_num)
+
+/-- **`RevolvedShape` of an `Oval`**: for every axis in the sketch plane (point `o`, unit direction `k`, unit sketch
+    normal `N ⟂ k`), first centre at height `y0 > 0` (`(x0, y0)` in the frame of the axis), second centre
+    `c1 + a k + b (N × k)` with `(a, b) ≠ 0`, `radius > 0`, any witness `wd > 0` of `|c2 − c1|`, ratios as for the half
+    disk, `2h² ≤ 1`, every sweep with positive sine, and the axis outside the circle about the first centre with radius
+    `(wd/radius + 1)(radius/wd)·|c2 − c1|` (`= radius + |c2 − c1|` for the true witness; it contains all 22
+    positions): every block between the sketch and its turned copy has eight positive corner Jacobians.
+    (`cross_axis_vec`, `frame_rescale`, `ovalL_facts`, `scaled_unit`, then `revolved_fan_RH`.) -/
+theorem T_C11_revolved_oval_rightHanded {K : Type} [Field K] [LinearOrder K] [IsStrictOrderedRing K]
+    (o k N : P3 K) (x0 y0 a b h kk dg radius wd cs sn : K)
+    (hk : P3.nsq k = 1) (hN : P3.nsq N = 1) (hNk : P3.dot N k = 0) (hsn : 0 < sn) (hy : 0 < y0)
+    (hr0 : 0 < radius) (hw : 0 < wd) (hab : 0 < a * a + b * b)
+    (hr : ((wd / radius + 1) * (radius / wd) * (-b)) * ((wd / radius + 1) * (radius / wd) * (-b))
+        + ((wd / radius + 1) * (radius / wd) * a) * ((wd / radius + 1) * (radius / wd) * a) < y0 * y0)
+    (hok : DiskOK .half h kk dg) (hh2 : 2 * (h * h) ≤ 1) :
+    ∀ H ∈ revolveOf (sketchQuads "Oval")
+        (ovalPts (frame o k N ⟨x0, y0, 0⟩)
+          (P3.add (frame o k N ⟨x0, y0, 0⟩) (P3.add (P3.smul a k) (P3.smul b (P3.cross N k)))) N h kk dg radius wd)
+        (frame o k N ⟨x0, y0, 0⟩) cs sn k o, H.RH :=
+  revolved_oval_RH o k N x0 y0 a b h kk dg radius wd cs sn hk hN hNk hsn hy hr0 hw hab hr hok hh2
+
+/-- non-vacuity: an oval of radius 1 with centres 2 apart (first centre 6 above the x axis), turned by (3/5, 4/5) -/
+example : ∀ H ∈ revolveOf (sketchQuads "Oval")
+    (ovalPts (frame (⟨0, 0, 0⟩ : P3 Rat) ⟨1, 0, 0⟩ ⟨0, 0, 1⟩ ⟨1, 6, 0⟩)
+      (P3.add (frame ⟨0, 0, 0⟩ ⟨1, 0, 0⟩ ⟨0, 0, 1⟩ ⟨1, 6, 0⟩)
+        (P3.add (P3.smul 0 ⟨1, 0, 0⟩) (P3.smul 2 (P3.cross ⟨0, 0, 1⟩ ⟨1, 0, 0⟩)))) ⟨0, 0, 1⟩ (7 / 10) (4 / 5) (9 / 10) 1 2)
+    (frame ⟨0, 0, 0⟩ ⟨1, 0, 0⟩ ⟨0, 0, 1⟩ ⟨1, 6, 0⟩) (3 / 5) (4 / 5) ⟨1, 0, 0⟩ ⟨0, 0, 0⟩, H.RH :=
+  T_C11_revolved_oval_rightHanded _ _ _ 1 6 0 2 _ _ _ _ _ _ _ (by norm_num [P3.nsq, P3.dot])
+    (by norm_num [P3.nsq, P3.dot]) (by norm_num [P3.dot]) (by norm_num) (by norm_num) (by norm_num) (by norm_num)
+    (by norm_num) (by norm_num) (by unfold DiskOK; norm_num) (by norm_num)
 
 /-! ## Part G — joints: one construction for every branch count -/
 
